@@ -98,7 +98,20 @@ func (mw MeshWriter) Write(mesh modeling.Mesh, writer io.Writer) error {
 			})
 		}
 		for _, p := range mesh.Float2Attributes() {
-			if claimedV2[p] || p == modeling.TexCoordAttribute {
+			if claimedV2[p] {
+				continue
+			}
+			if p == modeling.TexCoordAttribute {
+				if mesh.Topology() == modeling.TriangleTopology {
+					// written per corner in the face element
+					continue
+				}
+				writers = append(writers, Vector2PropertyWriter{
+					ModelAttribute: p,
+					Type:           Float,
+					PlyPropertyX:   "s",
+					PlyPropertyY:   "t",
+				})
 				continue
 			}
 			writers = append(writers, Vector2PropertyWriter{
